@@ -23,6 +23,14 @@ CHECKS = {
         text="Every interleaving of dispatcher, queue feeders, workers and receive timeouts of the real _walk_parallel/_mp_walk_worker is explored for 60+ small pyramids (generic, TOAST, a 51-filter family covering every live-children mask incl. accepted-but-childless tiles, sub-pyramid apexes, 1-3 workers) with an invariant monitor (exactly once, only live non-leaf tiles, parent after live children) and a backward-reachability termination analysis of the state graph; the serial walk is checked on every effective depth-2 filter (17^4) and every apex against a reference quadtree. The schedule quantifier cannot be reached by tests; exhaustive exploration of small configurations is the appropriate level.",
         note=_E1_NOTE,
     ),
+    "C02": dict(
+        engine="vmp+bex",
+        category="model_checking",
+        design_ref="5/C02",
+        technique="exhaustive sparse-population enumeration of serial cascades against a reference merge + stateful exhaustive interleaving exploration of the real merger",
+        text="Serial: start depth 1 (all 16 leaf subsets) and 2 (512 / 1024 sparse populations, plus depth-3 chains in thorough) x {npy F32, npy U8, png RGBA, png RGB, fits F32 bottom-up (+ npy I16, npy F64)} x {no filter, filter accepting exactly the populated tiles}: after cascade_images on a fresh directory the set of parent tiles and every pixel (dtype, NaN positions, alpha) must equal an independent reference (display-orientation mosaic, 2x2 block reduction). Leaf contents are injective and asymmetric with all 16 undefined-patterns of a 2x2 block, a per-leaf undefined band and semi-transparent pixels. Parallel: the real TileMerger.walk_callback runs under the virtual scheduler with 2 workers; every terminal tree of every interleaving must equal the serial tree.",
+        note=_E1_NOTE + " Float means compared to 2e-6 relative (accumulation order), undefined positions exactly. jpg not compared.",
+    ),
     "C03": dict(
         engine="vmp",
         category="model_checking",
@@ -46,6 +54,14 @@ CHECKS = {
         technique="exhaustive per-pixel comparison of tile coordinate grids with reference deeper-tile centres for all tiles to a depth bound",
         text="For every tile at depths 1..2 (1..4) and a deep lattice to depth 10 (12), both coordinate systems (both diagonal orientations at every depth), all 65 536 pixel coordinates returned by toast_tile_get_coords are compared with the reference centres of tiles (n+8, 256x+j, 256y+i) (1e-9 rad), must lie inside the tile (half-space test) and within the latitude span of its corners; for depth-1 (and depth-2) tiles the public Python-side generator is descended eight levels (65 536 tiles each) and its tile centres must agree with the compiled grid.",
         note="The compiled helper is exercised as built: Cython is not installed, so edits to _libtoasty.pyx cannot be rebuilt (a changed generated .c is).",
+    ),
+    "C06": dict(
+        engine="vmp+bex",
+        category="model_checking",
+        design_ref="5/C06",
+        technique="exhaustive configuration enumeration of serial sampling against reference pixel geometry + stateful exhaustive interleaving exploration of the real sampler",
+        text="Serial: depth 0..2 (3) x both coordinate systems x {png with an RGB sampler, npy F32, fits F32 bottom-up} x {clobber, update with an all-true filter, update of an earlier partial sampling by an overlapping, partly undefined one}: the set of tile files and all 65 536 pixels of every tile must equal sampler(reference pixel-centre coordinates of that tile) in display orientation (rows reversed on disk for FITS); depth 0 is the level-8 pixelisation of the whole sphere. Parallel: the real ToastSampler.visit_callback (clobber, and update mode with lock/read/write choice points) under the virtual scheduler, all interleavings, terminal tree = serial tree, no lock files.",
+        note=_E1_NOTE + " Smooth float sampler compared to 2e-4 absolute; uint8 samples may differ by one count at <=6 pixels per tile. HEALPix samplers need healpy (absent). In the interleaving runs the pure coordinate function is memoised per tile.",
     ),
     "C08": dict(
         engine="bex",
@@ -78,6 +94,14 @@ CHECKS = {
         technique="bounded-exhaustive enumeration of filters x apexes x depths against a reference quadtree; all position pairs to a depth bound",
         text="Every effective depth-2 TOAST filter (17^4), every depth-1 filter, generic pyramids to depth 4-5 with every apex (to depth 3) and a 51-filter family with every apex are pushed through count_leaf_tiles/count_live_tiles/count_operations, visit_leaves, walk and the position generator and compared with an independent reference quadtree, the closed forms and the sub-pyramid/full differential; the position algebra is checked on every pair of positions to depth 4 (5 in thorough).",
         note="Reference model vt/ref/quadtree.py written from the documentation. Depth-3 filters exhaustive only within one level-1 quadrant (thorough).",
+    ),
+    "C14": dict(
+        engine="vmp+bex",
+        category="model_checking",
+        design_ref="5/C14",
+        technique="exhaustive sparse-population enumeration of FITS cascades with a data-range oracle + interleaving exploration of the parallel cascade",
+        text="The C02 population family restricted to FITS F32 (F64 in thorough) tiles written by toasty itself, leaves with NaN regions and disjoint value ranges per leaf: after the serial cascade DATAMIN/DATAMAX of every tile must equal the min/max over the finite leaf pixels beneath it; Builder.cascade()+write_index_rel_wtml() must carry the root's range into ImageSet and WTML (including populations with an all-NaN leaf, which must not be stored); the parallel cascade is explored under the virtual scheduler with headers included in the terminal-tree comparison.",
+        note=_E1_NOTE + " Single-precision tolerance 2e-7 relative.",
     ),
     "C15": dict(
         engine="bex",
